@@ -238,7 +238,36 @@ inline Rational ratFromString(const char* desc)
          else
             res = Rational(s);
 
-         res *= pow(10, mult);
+         // beyond the range of double the floating-point power of ten is infinite or zero; infinity cannot be converted
+         // to a rational (SIGFPE inside GMP) and zero loses the number, so compute the power in rational arithmetic then
+         double dpower = pow(10, mult);
+
+         if(dpower > 0.0 && dpower <= DBL_MAX)
+            res *= dpower;
+         else
+         {
+            const int maxexponent = 100000; // far beyond any infinity threshold; bounds the size of the number
+            long absmult = (mult > 0) ? long(mult) : -long(mult);
+            int n = int(SOPLEX_MIN(absmult, long(maxexponent)));
+            Rational power(1);
+            Rational base(10);
+
+            while(n > 0)
+            {
+               if(n & 1)
+                  power *= base;
+
+               n >>= 1;
+
+               if(n > 0)
+                  base *= base;
+            }
+
+            if(mult > 0)
+               res *= power;
+            else
+               res /= power;
+         }
       }
    }
 
